@@ -456,6 +456,21 @@ pub fn run(c: &mut Ctx) {
                 Err(()) => "panic".into(),
             },
         );
+        // the same writer through the item form (`format_with_items([Fixed::RFC2822])`, `%c`-style use)
+        if i % 2 == 0 {
+            let via = guard(|| {
+                use std::fmt::Write;
+                let items = [chrono::format::Item::Fixed(chrono::format::Fixed::RFC2822)];
+                let mut s = String::new();
+                write!(s, "{}", dt.format_with_items(items.iter())).map(|_| s).map_err(|_| ())
+            });
+            c.count("render:item-form-compared");
+            match (&text, &via) {
+                (Ok(a), Ok(Ok(b))) if a == b => {}
+                (Err(()), Ok(Err(()))) | (Err(()), Err(())) => {}
+                _ => c.fail("the RFC 2822 item renders differently from to_rfc2822", &format!("{args}: to_rfc2822 {:?} item {:?}", text, via)),
+            }
+        }
         let secs = t.num_seconds_from_midnight() as i64;
         let leap = t.nanosecond() >= 1_000_000_000;
         let whole_minute = off % 60 == 0;
